@@ -54,6 +54,12 @@ class ExprMixin:
                 return v            # constant table, by value from the real module
             if isinstance(v, (set, frozenset)):
                 return frozenset(v)
+            import enum as _enum
+            import types as _types
+            if isinstance(v, type) and issubclass(v, _enum.Enum):
+                return v            # an Enum class: its members are plain constants
+            if isinstance(v, _types.ModuleType):
+                return v
             if isinstance(v, dict) and v and all(callable(x) for x in v.values()):
                 return self.module_lambda_table(name)
             inl = getattr(self.contract, "inline", {}) or {}
@@ -230,6 +236,14 @@ class ExprMixin:
 
     def compare(self, o, a, b, st):
         """-> python bool or z3 Bool term"""
+        import enum as _enum
+        if isinstance(a, _enum.Enum) or isinstance(b, _enum.Enum):
+            if o in ("Eq", "Is"):
+                return a is b
+            if o in ("NotEq", "IsNot"):
+                return a is not b
+        if o in ("Is", "IsNot") and callable(a) and callable(b) and not isinstance(a, (Sym, Ref)) and not isinstance(b, (Sym, Ref)):
+            return (a is b) if o == "Is" else (a is not b)
         if o in ("Is", "IsNot"):
             if a is None or b is None or isinstance(a, bool) or isinstance(b, bool):
                 if isinstance(a, Sym) or isinstance(b, Sym):
@@ -311,7 +325,12 @@ class ExprMixin:
             if item.tag in ("str", "bytes"):
                 want = str if item.tag == "str" else bytes
                 ks = [k for k in keys if isinstance(k, want)]
-                return z3.Or(*[item.t == str_term(k) for k in ks]) if ks else False
+                n = z3.simplify(z3.Length(item.t))
+                if z3.is_int_value(n):          # only keys of the same length can be equal
+                    ks = [k for k in ks if len(k) == n.as_long()]
+                if not ks:
+                    return False
+                return z3.Or(*[item.t == str_term(k) for k in ks]) if len(ks) > 1 else item.t == str_term(ks[0])
             return False
         if isinstance(container, Ref):
             o = st.deref(container)
@@ -621,6 +640,19 @@ class ExprMixin:
         """constant table indexed by a symbolic key: fork per feasible key (finite)."""
         cands = [k for k in table if (isinstance(k, int) and not isinstance(k, bool) and key.tag == "int")
                  or (isinstance(k, str) and key.tag == "str") or (isinstance(k, bytes) and key.tag == "bytes")]
+        if key.tag in ("str", "bytes"):
+            n = z3.simplify(z3.Length(key.t))
+            if z3.is_int_value(n):
+                cands = [k for k in cands if len(k) == n.as_long()]
+        if len(cands) > 12 and all(isinstance(table[k], str) for k in cands):
+            # large constant table with string values: the value as an if-then-else term; KeyError when no key matches
+            present = z3.Or(*[key.t == str_term(k) for k in cands])
+            if not self.decide(present, st):
+                raise PyRaise("KeyError")
+            term = str_term(table[cands[-1]])
+            for k in reversed(cands[:-1]):
+                term = z3.If(key.t == str_term(k), str_term(table[k]), term)
+            return Sym("str", term)
         for k in cands:
             c = key.t == (z3.IntVal(k) if key.tag == "int" else str_term(k))
             if self.decide(c, st):
